@@ -31,7 +31,7 @@ func c19(r *Report) propMeta {
 	r.Count("one-message", hq, []Effect{SendEff("field:Context.pendingMsgs")}, "all", 0, 1)
 	r.SendValueHas("message-shape", hq, "field:Context.pendingMsgs", "call:types.NewMsgReportData", "param:id", "call:yoda.handleRawRequests", "field:Context.validator")
 	r.Gate("only-if-selected", hq, SendEff("field:Context.pendingMsgs"), []Cond{
-		{Op: "BOOL", A: []string{"^phi", "field:Request.RequestedValidators", "field:Context.validator"}, Want: true, Desc: "this validator is among RequestedValidators"},
+		{Op: "BOOL", A: []string{"^phi|^call:slices.Contains", "field:Request.RequestedValidators", "field:Context.validator"}, Want: true, Desc: "this validator is among RequestedValidators"}, // hand-written search loop or slices.Contains
 		nilErrOf("yoda.GetRequest")}, GateOpts{})
 	r.Gate("all-hashes-resolved", hq, SendEff("field:Context.pendingMsgs"), []Cond{nilErrOf("yoda.GetDataSourceHash")}, GateOpts{LoopAll: true})
 	r.MustPass("selected-request-always-answered", hq, CallEff("yoda.handleRawRequests"), SendEff("field:Context.pendingMsgs"))
